@@ -220,6 +220,7 @@ def execute(case):
     deep = case.get("trace") == "all"
     prefixes = _STATE["prefixes_all"] if deep else _STATE["prefixes"]
     sched = threadsim.Sched(policy, prefixes, log, max_steps=case.get("max_steps", 4_000_000) * (8 if deep else 1))
+    sched.watch_names = frozenset({"_ensure_level"})
     if deep:
         out.probe("deep_tracing")
     responses = {}
@@ -286,7 +287,7 @@ def execute(case):
     _STATE["last_steps"] = sched.steps
     out.extra["segments"] = sched.segments
     out.extra["switches"] = sched.switches
-    for name in ("contended_acquire", "lock_handoff", "forced_preempt", "lock_block", "lock_acquire"):
+    for name in ("contended_acquire", "lock_handoff", "forced_preempt", "lock_block", "lock_acquire", "two_threads_inside_watched_function"):
         if sched.counters.get(name):
             out.probe(name, sched.counters[name])
     if sched.lock_holder_preempts:
